@@ -167,6 +167,7 @@ struct HSlot {
     st: HState,
     flag: Arc<Flag>,
     dl: i64,
+    id: u64,
 }
 
 pub struct St {
@@ -276,9 +277,11 @@ impl St {
                 let inc = self.next_inc;
                 let (infl, timers) = s.counts();
                 let dl;
+                let rid;
                 {
                     let r: &Request<Req> = ifr.get();
                     dl = ms_of(r.context.deadline);
+                    rid = r.id;
                     emit(
                         "Yielded",
                         json!({"h": inc, "id": r.id, "dl": dl, "msg": r.message,
@@ -295,6 +298,7 @@ impl St {
                         st: HState::Offered(ifr),
                         flag: Flag::new(&format!("h{}", inc), true),
                         dl,
+                        id: rid,
                     },
                 );
                 // a stream that yielded an item is polled again
@@ -698,6 +702,8 @@ pub struct Gen {
     fresh_only: bool,
     used_ids: Vec<u64>,
     appdrop: bool,
+    /// duplicates-while-in-flight only: an id is re-sent only while its handler is alive and unfinished
+    dups: bool,
 }
 
 impl Gen {
@@ -711,7 +717,16 @@ impl Gen {
         let mut ch: Vec<(u32, Value)> = vec![];
         let now = st.clock.now_ms() as i64;
         if alive && !st.eof_pushed && self.sent < self.nreq {
-            let id = if self.fresh_only {
+            let alive: Vec<u64> = st.handlers.iter()
+                .filter(|(h, s)| !matches!(s.st, HState::Gone) && !st.ctl.borrow().complete.contains(h))
+                .map(|(_, s)| s.id).collect();
+            let id = if self.dups {
+                if !alive.is_empty() && rng.gen_bool(0.5) {
+                    alive[rng.gen_range(0..alive.len())]
+                } else {
+                    self.used_ids.iter().max().map(|m| m + 1).unwrap_or(0)
+                }
+            } else if self.fresh_only {
                 self.used_ids.len() as u64
             } else {
                 rng.gen_range(0..self.ids)
@@ -812,7 +827,8 @@ pub fn random_sched(i: u64, rng: &mut StdRng, a: &Args) -> Sched {
                      "random": {"seed": rng.gen::<u32>(), "len": rng.gen_range(8..70u64),
                                 "reqs": rng.gen_range(1..=a.opt_u64("reqs", 5)), "ids": rng.gen_range(1..=3u64),
                                 "faults": faults, "fresh": fresh,
-                                "appdrop": a.opt_u64("appdrop", if fresh { 1 } else { 0 }) == 1 && fresh}});
+                                "appdrop": a.opt_u64("appdrop", if fresh { 1 } else { 0 }) == 1 && fresh,
+                                "dups": a.opt_u64("dups", 0) == 1}});
     Sched {
         id: format!("r{}", i),
         cfg,
@@ -849,6 +865,7 @@ pub fn run_one(scn: u64, s: &Sched) -> OneResult {
             fresh_only: r.get("fresh").and_then(|v| v.as_bool()).unwrap_or(false),
             used_ids: vec![],
             appdrop: r.get("appdrop").and_then(|v| v.as_bool()).unwrap_or(false),
+            dups: r.get("dups").and_then(|v| v.as_bool()).unwrap_or(false),
         });
     }
     st.run_steps();
